@@ -28,6 +28,7 @@ VARIANTS = {
 # harness programs: name -> (sources, extra link flags)
 PROGRAMS = {
   'vfh':  (['vfh.c','streams.c'], '-Wl,--wrap=exit'),
+  'ench': (['ench.c','scn.c','streams.c'], '-Wl,--wrap=exit'),
 }
 
 def log(*a):
